@@ -93,4 +93,16 @@ CHECKS = {
         text="Fault = the file ends at offset `cut`. For two synthetic Groth16 systems wrapped in prover.ProvingSystem every offset 0..len-1 of both formats is read (exhaustive); for real (1,1) systems the classes of KeysFile.tla (header bytes, +-64 around each section boundary, strides through the proving key and the constraint system, the tail). Every prefix must yield an error — no load, no panic, no hang; `start|prove|verify|convert-to-raw` on truncated files must exit non-zero. The reader mutants 'EOF of the last section ignored' and 'stop after the verifying key' are refuted at the model level.",
         note="Real files are covered by offset classes (about 600 per format in the thorough tier), not every one of 8*10^7 offsets; internal sub-structure of the proving key is reached by strides, not by name.",
     ),
+    "C03": dict(
+        level="model_checking",
+        technique="Packing.tla (on-chain abi.encodePacked vs the circuit's bit path, executable Keccak.tla as oracle) model-checked for PackingAgrees / HashAgrees / BytesInjective / canonical field encodings; per code-produced valid witness TLC computes the hash, the hashes of all single-field perturbations and of every forged encoding v + k*r, which the real circuit must accept resp. reject (engine, R1CS, R1CS with the bit-decomposition hint replaced)",
+        text="Design level: the bit string fed to Keccak is the byte string the verifier hashes for batch sizes 0..8 in both modes and for all witness values; the packing is injective; only representatives below r (and indices below 2^32) are acceptable (ReducedCheck.tla gives the exhaustive argument). Code level: for valid witnesses with one- and two-block hash inputs, value classes 0/1/r-1/leading-zero values and extreme indices, the circuit accepts exactly the spec's hash (any representative) and rejects hash+-1, the hash of every batch differing in one field, swapped roots, an index + 2^32, and — the attack the property names — the hash of the forged bytes of v + k*r with the prover's digit hint replaced accordingly.",
+        note="Trusted: Keccak collision-freeness; Keccak.tla (KATs, x/crypto cross-check in C04/C08). Perturbations are +1 per field and the pre/post swap, not all alternative values.",
+    ),
+    "C07": dict(
+        level="model_checking",
+        technique="contract-level TLA+ specification Prover.tla (proof tokens, Prove iff valid and well-shaped, Verify iff own system and congruent hash) model-checked over all short sequences; behaviours covering every parameter class and every (issuer, verifier, candidate) combination executed on independently set-up real Groth16 systems",
+        text="Every invalid-batch kind (wrong root, path, leaf, hash, shifted / out-of-range / too-high index, swapped roots) and every wrong-dimension kind (each array one too long or short, one ragged row, empty) must make ProveInsertion/ProveDeletion return an error and no proof without panicking; a valid batch must yield a proof that VerifyX accepts for own, own+r, own+2r, own+4r and rejects for own+-1, another batch's hash, a random value and 0, and that the other mode's system and an independent setup of the same dimensions reject.",
+        note="Trusted: Groth16 soundness/completeness ('every other public input' is sampled). Dimensions (2,2), (3,2), (2,1).",
+    ),
 }
